@@ -385,6 +385,8 @@ def mech(v, t):
         return 'nested-list'
     if t in ('string', 'char16'):
         return 'non-string-for-string-type'
+    if t not in cimgen.ALL_TYPES:
+        t = '<bogus-type-name>'
     items = v if isinstance(v, list) else [v]
     if any(isinstance(x, float) and not math.isfinite(x) for x in items):
         return 'non-finite-float-for-%s' % (
